@@ -142,7 +142,15 @@ pub fn stream(frames: Vec<Frame>) -> Stream {
 
 /// Feed the chunks to the real framer and collect what it yields.
 pub fn run_chunks(chunks: Vec<Vec<u8>>, limit: usize) -> Result<Vec<Vec<u8>>, String> {
-    guarded(|| {
+    // the watchdog is told the stream with 0xff 0xff between the chunks (only read when the framer hangs)
+    let mut desc: Vec<u8> = Vec::new();
+    for (i, c) in chunks.iter().enumerate() {
+        if i > 0 {
+            desc.extend_from_slice(&[0xff, 0xff]);
+        }
+        desc.extend_from_slice(c);
+    }
+    guarded_watch(&desc, || {
         futures::executor::block_on(async {
             let q: VecDeque<Vec<u8>> = chunks.into();
             let s = next_msg(DataSource::Chunks(q)).await;
@@ -446,6 +454,25 @@ pub fn run(ctx: &Ctx, rep: &Report) {
 pub fn replay(w: &Value, rep: &Report) {
     let frames: Vec<Frame> = w["frames"].as_array().map(|a| a.iter().map(|x| Frame { plain: unhex(x.as_str().unwrap_or("")) }).collect()).unwrap_or_default();
     let cuts: Vec<usize> = w["cuts"].as_array().map(|a| a.iter().filter_map(|x| x.as_u64().map(|v| v as usize)).collect()).unwrap_or_default();
+    if let (true, Some(h)) = (frames.is_empty(), w.get("frame").and_then(|x| x.as_str())) {
+        // a witness of the hang watchdog: the chunks, separated by ff ff
+        let bytes = unhex(h);
+        let mut chunks: Vec<Vec<u8>> = vec![Vec::new()];
+        let mut i = 0;
+        while i < bytes.len() {
+            if i + 1 < bytes.len() && bytes[i] == 0xff && bytes[i + 1] == 0xff {
+                chunks.push(Vec::new());
+                i += 2;
+            } else {
+                chunks.last_mut().unwrap().push(bytes[i]);
+                i += 1;
+            }
+        }
+        let _ = run_chunks(chunks, 64); // the watchdog reports it if it does not return
+        rep.sample(w.clone());
+        rep.outcome("replayed", 1);
+        return;
+    }
     if frames.is_empty() {
         eprintln!("replay of long-stream witnesses is done by the full check");
         return;
